@@ -1181,7 +1181,6 @@ def correspondence(ctx):
         model.setdefault(kind, []).extend(vals[0])
     ctx.traces += sum(len(v) for v in B.items.values())
 
-    variant_votes = {"buggy": 0, "fixed": 0}
     pending = []
     loop_votes = {"counted": 0, "ignored": 0}
     pending_loops = []
@@ -1270,21 +1269,30 @@ def correspondence(ctx):
             run_pred(ctx, "is_clique", data)
 
     # which variant of the weight-mode indexing does the implementation follow?
+    # (decided separately for clique.py and subgraph.py: they can be repaired independently)
+    group = {"shrink": "clique.shrink", "resize": "subgraph.resize", "search": "subgraph.resize"}
+    votes = {g: {"buggy": 0, "fixed": 0} for g in set(group.values())}
     for kind, data, impl, mb, mf in pending:
         if mb != mf:
             if impl == mb:
-                variant_votes["buggy"] += 1
+                votes[group[kind]]["buggy"] += 1
             elif impl == mf:
-                variant_votes["fixed"] += 1
-    variant = "fixed" if variant_votes["fixed"] > variant_votes["buggy"] else "buggy"
-    ctx.extra["weight_mode_variant"] = dict(variant_votes, chosen=variant)
-    ctx.notes.append("weight-mode indexing variant matched by the implementation: %s %s" % (variant, variant_votes))
+                votes[group[kind]]["fixed"] += 1
+    variants = {g: ("fixed" if v["fixed"] > v["buggy"] else "buggy") for g, v in votes.items()}
+    ctx.extra["weight_mode_variant"] = {g: dict(votes[g], chosen=variants[g]) for g in votes}
+    ctx.notes.append("weight-mode indexing variant matched by the implementation: %s" % (ctx.extra["weight_mode_variant"],))
     for kind, data, impl, mb, mf in pending:
+        variant = variants[group[kind]]
         mine = mf if variant == "fixed" else mb
         if impl != mine:
             fails = run_pred(ctx, kind, data)
             if not fails:
                 ctx.disagreement("corr:" + kind, "model(%s) %r vs implementation %r" % (variant, mine, impl), dict(data, check=kind, model=repr(mine)[:600], impl=repr(impl)[:600]))
+            else:
+                # the predicate fails here AND the result is not what the modelled source produces: this is not
+                # (only) the recorded weight-mode indexing defect
+                sig, what = fails[0]
+                ctx.counterexample(sig + "+unmodelled", what + " -- and the result differs from the model of the source (%s variant): model %r" % (variant, mine), dict(data, check=kind))
 
 
 # ======================================================================================
